@@ -235,7 +235,8 @@ def gen_scene(r, big=False, dropped=False, many_chunks=False, force_mwm=None):
     sc.update({"lons": hex2(lons), "lats": hex2(lats), "data": hex2(data), "dtype": dtype, "rps": rps,
                "params": dict(DEFAULT_PARAMS) if dropped else gen_params(r), "mwm": False if dropped else mwm,
                "fill": H(fill), "in_rows": in_rows, "out_chunks": [rand_chunks(r, h), rand_chunks(r, w)],
-               "legacy": (not big) and r.random() < 0.5, "want_sub_fp": not big, "want_fp": True,
+               # LegacyDaskEWAResampler has no input-fill argument (its fill_value is never handed to fornav): NaN fill only
+               "legacy": (not big) and fill != fill and r.random() < 0.6, "want_sub_fp": not big, "want_fp": True,
                "kind": kind, "const": const, "has_fill": has_fill, "grid": [h, w]})
     sc["ws_wsm"] = ws_wsm(sc["params"])
     return sc
@@ -798,6 +799,8 @@ def run(ctx):
             ctx.count("fornav:fill_pixels")
         if case["geo"] != "plain":
             ctx.count("fornav:" + case["geo"])
+        if tab and case["params"]["weight_sum_min"] == -1.0 and min(wt for l in tab.values() for _, wt in l) < smin_eff(case["params"]):
+            ctx.count("H_thresh:default_threshold_table_weight_below_weight_min")
         for key, what in fails:
             ctx.add_failure(key, what, {"oracle": "fornav", "case": case})
         if "error" not in o and "error" not in o["oneshot"] and "error" not in o["ws"]:
